@@ -259,10 +259,52 @@ CONFIGS = {
 }
 
 
+def scale(n, blocking):
+  """Scale: n actions with distinct deadlines; when `blocking`, every action blocks for ever once started (an action is free to
+  take as long as it likes; the queue must still start every later one on time)."""
+  import gevent.event
+  world.reset()
+  st = St({'res': 0.01, 'dts': [], 'advs': [], 'max_actions': n, 'max_preempt': 0, 'preempt_depth': 1, 'horizon': 0.01 * n + 1})
+  never = gevent.event.Event()
+  starts = {}
+  lp = st.lp
+
+  def mk(i):
+    def action():
+      starts.setdefault(i, []).append(lp.now())
+      if blocking:
+        never.wait()
+    return action
+  t0 = lp.now()
+  due = {}
+  for i in range(n):
+    d = t0 + 0.0025 + 0.01 * i
+    due[i] = st.tick_up(d)
+    st.q.Schedule(d, mk(i))
+  vloop.run_ready()
+  st._advance(st.horizon)
+  vloop.run_ready()
+  viol = []
+  for i in range(n):
+    got = starts.get(i, [])
+    if len(got) != 1 or abs(got[0] - due[i]) > EPS:
+      viol.append({'clause': 'C10.never-ran' if not got else 'C10.ran-late',
+                   'message': '%d actions with deadlines 10 ms apart%s: action %d (due +%.4f) started at %r'
+                   % (n, ', every action blocks once started' if blocking else '', i, due[i] - vloop.EPOCH,
+                      [round(t - vloop.EPOCH, 4) for t in got]), 'sig': {'res': 0.01}})
+      break
+  return {'n': n, 'viol': viol}
+
+
 def main(tier, seed):
   rep = Report(PROP, tier, seed, 'model_checking')
   pool = bfs.make_pool()
   try:
+    from .. import explore
+    sizes = [(n, b) for n in ((10, 100, 300) if tier == 'quick' else (10, 33, 65, 100, 129, 300, 1025, 3000)) for b in (False, True)]
+    for o in explore.pmap('vt.checks.c10', 'scale', sizes, pool, seed):
+      rep.add_violations(o['viol'])
+    rep.part('many actions, optionally blocking for ever once started', engine='E (scale)', sizes=sizes)
     for params, depth in CONFIGS[tier]:
       res = bfs.run_bfs('vt.checks.c10', 'expand', params, depth, pool, seed=seed)
       rep.add_bfs('timerqueue res=%s' % params['res'], res, depth, params=params,
